@@ -1071,3 +1071,552 @@ class CallGraph:
                     prev[id(t.node)] = f
                     dq.append(t)
         return None
+
+
+# =============================================================================
+# Integer bounds
+# =============================================================================
+def iv(lo, hi=None):
+    return (lo, lo if hi is None else hi)
+
+
+TOP = (-INF, INF)
+ZERO = (0, 0)
+
+
+def iv_add(a, b):
+    return (a[0] + b[0], a[1] + b[1])
+
+
+def iv_neg(a):
+    return (-a[1], -a[0])
+
+
+def iv_sub(a, b):
+    return iv_add(a, iv_neg(b))
+
+
+def iv_join(a, b):
+    return (min(a[0], b[0]), max(a[1], b[1]))
+
+
+def iv_mul(a, b):
+    prods = []
+    for x in a:
+        for y in b:
+            if (x == 0 and abs(y) == INF) or (y == 0 and abs(x) == INF):
+                prods.append(0)
+            else:
+                prods.append(x * y)
+    return (min(prods), max(prods))
+
+
+def iv_str(a):
+    def s(x):
+        return "-inf" if x == -INF else ("+inf" if x == INF else str(int(x)))
+    return "[%s,%s]" % (s(a[0]), s(a[1]))
+
+
+_FMT_RANGE = {"B": (0, 255), "b": (-128, 127), "H": (0, 65535), "h": (-32768, 32767), "I": (0, 2**32 - 1), "L": (0, 2**32 - 1),
+              "i": (-2**31, 2**31 - 1), "l": (-2**31, 2**31 - 1), "Q": (0, 2**64 - 1), "q": (-2**63, 2**63 - 1), "?": (0, 1)}
+
+
+def fmt_slots(fmt):
+    """value range of each slot produced by struct.unpack(fmt) (None for non-integer slots)"""
+    out = []
+    f = fmt.lstrip("<>=!@")
+    num = ""
+    for ch in f:
+        if ch.isdigit():
+            num += ch
+            continue
+        n = int(num) if num else 1
+        num = ""
+        if ch in "sp":
+            out.append(None)
+        elif ch == "x":
+            pass
+        else:
+            out += [_FMT_RANGE.get(ch)] * n
+    return out
+
+
+class Bounds:
+    """interval evaluation of integer expressions inside a function (syntactic, conservative:
+    anything not understood is [-inf, +inf])."""
+
+    def __init__(self, cg: CallGraph):
+        self.cg = cg
+        self.folder = cg.folder
+        self._attr = {}
+        self._ret = {}
+        self._locals_cache = {}
+
+    # ---- constants -----------------------------------------------------------
+    def _local_names(self, f: Func):
+        k = id(f.node)
+        if k not in self._locals_cache:
+            names = set(p.arg for p in self.cg._params_of(f))
+            if f.node.args.vararg:
+                names.add(f.node.args.vararg.arg)
+            if f.node.args.kwarg:
+                names.add(f.node.args.kwarg.arg)
+            for n in own_nodes(f.node):
+                if isinstance(n, ast.Name) and isinstance(n.ctx, (ast.Store, ast.Del)):
+                    names.add(n.id)
+                elif isinstance(n, ast.ExceptHandler) and n.name:
+                    names.add(n.name)
+            self._locals_cache[k] = names
+        return self._locals_cache[k]
+
+    def fold(self, e, f: Func):
+        """constant value of `e` inside f, or Unknown.  Locals fold only through a
+        structurally dominating single definition; `self.K` folds to a class constant
+        that no method ever stores to."""
+        L = {}
+        for n in ast.walk(e):
+            if isinstance(n, ast.Name) and n.id in self._local_names(f) and n.id not in L:
+                dd = self.cg.dominating_def(n, f) if parent(n) is not None else None
+                v = Unknown("local %s" % n.id)
+                if dd is not None and not any(isinstance(x, ast.Name) and x.id == n.id for x in ast.walk(dd)):
+                    v = self.fold(dd, f)
+                L[n.id] = v
+        sn = self.cg.self_name(f)
+        if sn is not None:
+            e2 = self._subst_self_consts(e, f, sn)
+            if e2 is None:
+                return Unknown("self attribute")
+            e = e2
+        try:
+            return self.folder.fold(e, f.module, L)
+        except Exception as ex:  # folding must never break the analysis
+            return Unknown("fold: %s" % ex)
+
+    def _subst_self_consts(self, e, f, sn):
+        """replace `self.K` by the class-level constant expression (when never stored to)"""
+        cls = self.cg.type_of(ast.Name(id=sn, ctx=ast.Load()), f)
+        if not isinstance(cls, Cls):
+            return e
+        found = [n for n in ast.walk(e) if isinstance(n, ast.Attribute) and isinstance(n.value, ast.Name) and n.value.id == sn]
+        if not found:
+            return e
+
+        class T(ast.NodeTransformer):
+            ok = True
+
+            def visit_Attribute(s2, n):
+                if isinstance(n.value, ast.Name) and n.value.id == sn:
+                    ca = cls.lookup_attr(n.attr)
+                    if ca is not None and not self._stored(cls, n.attr):
+                        return ast.Attribute(value=ast.Name(id=cls.name, ctx=ast.Load()), attr=n.attr, ctx=ast.Load())
+                    s2.ok = False
+                    return n
+                return s2.generic_visit(n)
+
+        import copy
+        t = T()
+        e2 = t.visit(copy.deepcopy(e))
+        if not t.ok:
+            return None
+        if cls.module is not f.module and f.module.resolve_class(cls.name) is not cls:
+            return None
+        return e2
+
+    def _stored(self, cls: Cls, attr):
+        return bool(self._stores(cls, attr))
+
+    def _stores(self, cls: Cls, attr):
+        """[(method Func, stmt, target node, value-or-None, slot index-or-None)] for stores to self.attr"""
+        key = (id(cls), attr, "stores")
+        if key in self._attr:
+            return self._attr[key]
+        out = []
+        for k in cls.mro() + self.cg.subclasses(cls):
+            for m in k.methods.values():
+                sn = self.cg.self_name(m)
+                for g in [m] + list(self.cg.nested.get(id(m.node), {}).values()):
+                    for n in own_nodes(g.node):
+                        tgts = []
+                        if isinstance(n, ast.Assign):
+                            for t in n.targets:
+                                if isinstance(t, (ast.Tuple, ast.List)):
+                                    for i, x in enumerate(t.elts):
+                                        tgts.append((x, n.value, i))
+                                else:
+                                    tgts.append((t, n.value, None))
+                        elif isinstance(n, ast.AugAssign):
+                            tgts.append((n.target, None, None))
+                        elif isinstance(n, ast.AnnAssign) and n.value is not None:
+                            tgts.append((n.target, n.value, None))
+                        elif isinstance(n, (ast.For, ast.AsyncFor)):
+                            for x in ast.walk(n.target):
+                                tgts.append((x, None, None))
+                        elif isinstance(n, ast.Call) and isinstance(n.func, ast.Name) and n.func.id == "setattr" and len(n.args) >= 2:
+                            a0, a1 = n.args[0], n.args[1]
+                            if isinstance(a0, ast.Name) and a0.id == sn and not (isinstance(a1, ast.Constant) and a1.value != attr):
+                                out.append((m, n, n, None, None))
+                        for t, v, i in tgts:
+                            if isinstance(t, ast.Attribute) and t.attr == attr and isinstance(t.value, ast.Name) and t.value.id == sn:
+                                out.append((m, n, t, v, i))
+        self._attr[key] = out
+        return out
+
+    # ---- intervals -------------------------------------------------------------
+    def eval(self, e, f: Func, depth=0, subst=None):
+        """interval of integer expression e evaluated inside f.  `subst` = (self_name, Cls) when e
+        comes from a method body evaluated for a receiver of class Cls."""
+        if depth > 5 or e is None:
+            return TOP
+        if subst is None:
+            v = self.fold(e, f)
+            if isinstance(v, bool):
+                return iv(int(v))
+            if isinstance(v, int):
+                return iv(v)
+        if isinstance(e, ast.Constant):
+            if isinstance(e.value, bool):
+                return iv(int(e.value))
+            if isinstance(e.value, int):
+                return iv(e.value)
+            return TOP
+        ev = lambda x: self.eval(x, f, depth + 1, subst)
+        if isinstance(e, ast.BinOp):
+            if isinstance(e.op, ast.Add):
+                return iv_add(ev(e.left), ev(e.right))
+            if isinstance(e.op, ast.Sub):
+                return iv_sub(ev(e.left), ev(e.right))
+            if isinstance(e.op, ast.Mult):
+                return iv_mul(ev(e.left), ev(e.right))
+            if isinstance(e.op, ast.Mod):
+                r = ev(e.right)
+                if r[0] == r[1] and r[0] > 0:
+                    return (0, r[0] - 1)
+                return TOP
+            if isinstance(e.op, ast.BitAnd):
+                l, r = ev(e.left), ev(e.right)
+                best = TOP
+                for x in (l, r):
+                    if x[0] >= 0 and x[1] < INF:
+                        best = (0, min(best[1], x[1]))
+                return best
+            if isinstance(e.op, ast.FloorDiv):
+                l, r = ev(e.left), ev(e.right)
+                if r[0] == r[1] and r[0] > 0:
+                    k = r[0]
+                    return (l[0] // k if l[0] != -INF else -INF, l[1] // k if l[1] != INF else INF)
+                return TOP
+            if isinstance(e.op, ast.RShift):
+                l, r = ev(e.left), ev(e.right)
+                if r[0] == r[1] and r[0] >= 0:
+                    k = int(r[0])
+                    return (int(l[0]) >> k if l[0] != -INF else -INF, int(l[1]) >> k if l[1] != INF else INF)
+                return TOP
+            if isinstance(e.op, ast.LShift):
+                l, r = ev(e.left), ev(e.right)
+                if r[0] == r[1] and r[0] >= 0:
+                    return iv_mul(l, iv(2 ** int(r[0])))
+                return TOP
+            if isinstance(e.op, ast.BitOr):
+                l, r = ev(e.left), ev(e.right)
+                if l[0] >= 0 and r[0] >= 0:
+                    return (max(l[0], r[0]), INF if INF in (l[1], r[1]) else (1 << (int(max(l[1], r[1])).bit_length())) - 1)
+                return TOP
+            return TOP
+        if isinstance(e, ast.UnaryOp):
+            if isinstance(e.op, ast.USub):
+                return iv_neg(ev(e.operand))
+            if isinstance(e.op, ast.UAdd):
+                return ev(e.operand)
+            return TOP
+        if isinstance(e, ast.IfExp):
+            return iv_join(ev(e.body), ev(e.orelse))
+        if isinstance(e, ast.Call):
+            fn = e.func
+            if isinstance(fn, ast.Name) and fn.id == "len":
+                return (0, INF)
+            if isinstance(fn, ast.Name) and fn.id == "abs" and e.args:
+                a = ev(e.args[0])
+                if a[0] >= 0:
+                    return a
+                return (0, max(abs(a[0]), abs(a[1])))
+            if isinstance(fn, ast.Name) and fn.id in ("min", "max") and len(e.args) >= 2 and not e.keywords:
+                vs = [ev(a) for a in e.args]
+                if fn.id == "min":
+                    return (min(v[0] for v in vs), min(v[1] for v in vs))
+                return (max(v[0] for v in vs), max(v[1] for v in vs))
+            if isinstance(fn, ast.Name) and fn.id == "int" and len(e.args) == 1:
+                return TOP
+            if isinstance(fn, ast.Name) and fn.id == "ord":
+                return (0, 0x10FFFF)
+            # struct unpack slot: unpack(fmt, ...)[k] handled in Subscript
+            return self._call_bounds(e, f, depth, subst)
+        if isinstance(e, ast.Subscript):
+            # unpack('<I', ...)[0]
+            v = e.value
+            if isinstance(v, ast.Call) and CallGraph._is_unpack_call(v):
+                fmt = self.unpack_fmt(v, f)
+                k = self.fold(e.slice, f)
+                if fmt is not None and isinstance(k, int):
+                    sl = fmt_slots(fmt)
+                    if 0 <= k < len(sl) and sl[k] is not None:
+                        return sl[k]
+            return TOP
+        if isinstance(e, ast.Attribute):
+            return self._attr_bounds_expr(e, f, depth, subst)
+        if isinstance(e, ast.Name):
+            if subst is not None:
+                return TOP
+            if parent(e) is not None and e.id in self._local_names(f):
+                dd = self.cg.dominating_def(e, f)
+                if dd is not None and not any(isinstance(x, ast.Name) and x.id == e.id for x in ast.walk(dd)):
+                    return self.eval(dd, f, depth + 1)
+                return self._tuple_def_bounds(e, f)
+            return TOP
+        return TOP
+
+    def _tuple_def_bounds(self, name_node, f):
+        """`a, b = unpack(fmt, ...)` dominating the use: bounds of the slot"""
+        name = name_node.id
+        n = name_node
+        while n is not None and n is not f.node:
+            p = parent(n)
+            if p is None:
+                return TOP
+            if isinstance(n, ast.stmt):
+                for fld in ("body", "orelse", "finalbody"):
+                    lst = getattr(p, fld, None)
+                    if isinstance(lst, list) and any(x is n for x in lst):
+                        i = [k for k, x in enumerate(lst) if x is n][0]
+                        for j in range(i - 1, -1, -1):
+                            s = lst[j]
+                            if isinstance(s, ast.Assign) and len(s.targets) == 1 and isinstance(s.targets[0], (ast.Tuple, ast.List)):
+                                names = [x.id if isinstance(x, ast.Name) else None for x in s.targets[0].elts]
+                                if name in names and isinstance(s.value, ast.Call) and CallGraph._is_unpack_call(s.value):
+                                    fmt = self.unpack_fmt(s.value, f)
+                                    if fmt is not None:
+                                        sl = fmt_slots(fmt)
+                                        k = names.index(name)
+                                        if len(sl) == len(names) and sl[k] is not None:
+                                            return sl[k]
+                                    return TOP
+                            if CallGraph._binds(s, name):
+                                return TOP
+                        break
+                if isinstance(p, (ast.For, ast.AsyncFor, ast.While)) and CallGraph._binds(p, name):
+                    return TOP
+            n = p
+        return TOP
+
+    def unpack_fmt(self, call, f: Func):
+        """format string of a struct-style unpack call, with byte order made explicit; None if not literal"""
+        fn = call.func
+        if isinstance(fn, ast.Name) and fn.id in ("unpack", "unpack_from") and call.args:
+            imp = f.module.imports.get(fn.id)
+            if imp and imp[0] == "struct":
+                v = self.fold(call.args[0], f)
+                return v if isinstance(v, str) else None
+            return None
+        if isinstance(fn, ast.Attribute) and fn.attr in ("unpack", "unpack_from"):
+            recv = fn.value
+            if isinstance(recv, ast.Name) and recv.id == "struct" and f.module.imports.get("struct") == ("struct", None) and call.args:
+                v = self.fold(call.args[0], f)
+                return v if isinstance(v, str) else None
+            if isinstance(recv, ast.Subscript):
+                # packer["fmt"].unpack(...): the DalvikPacker idiom -- struct.Struct(endian + fmt)
+                base = recv.value
+                if self.is_packer(base, f):
+                    v = self.fold(recv.slice, f)
+                    if isinstance(v, str):
+                        return "<" + v
+                return None
+            if isinstance(recv, ast.Call):
+                r = self.cg.resolve_callable(recv.func, f)
+                if r and r[0] == "external" and r[1] in ("struct.Struct", "Struct") and recv.args:
+                    v = self.fold(recv.args[0], f)
+                    return v if isinstance(v, str) else None
+        return None
+
+    def is_packer(self, base, f: Func):
+        """`base[...]` yields a struct.Struct: base is a DalvikPacker-like object (a class whose
+        __getitem__ returns struct.Struct(self.endian_tag + item)) or is spelled `<x>.packer`."""
+        t = self.cg.type_of(base, f)
+        if isinstance(t, Cls):
+            gi = t.lookup("__getitem__")
+            if gi is not None:
+                return any(isinstance(n, ast.Call) and ast.unparse(n.func) in ("struct.Struct", "Struct") for n in ast.walk(gi.node))
+            return False
+        if t is EXTERNAL:
+            return False
+        if isinstance(base, ast.Attribute) and base.attr == "packer":
+            # the packer property of ClassManager; verified by looking the property up by name
+            for p in self.cg.props.get("packer", []) + self.cg.by_name.get("packer", []):
+                rt = None
+                for n in ast.walk(p.node):
+                    if isinstance(n, ast.Return) and n.value is not None:
+                        rt = self.cg.type_of(n.value, p)
+                        if isinstance(rt, Cls) and rt.lookup("__getitem__") is not None:
+                            return self.is_packer_cls(rt)
+            return False
+        return False
+
+    def is_packer_cls(self, c: Cls):
+        gi = c.lookup("__getitem__")
+        return gi is not None and any(isinstance(n, ast.Call) and ast.unparse(n.func) in ("struct.Struct", "Struct") for n in ast.walk(gi.node))
+
+    def _call_bounds(self, call, f, depth, subst):
+        """bounds of the value returned by a repository function: join over all `return` expressions"""
+        if subst is not None:
+            # inside a substituted method body only self-method calls are followed
+            fn = call.func
+            if isinstance(fn, ast.Attribute) and isinstance(fn.value, ast.Name) and fn.value.id == subst[0]:
+                ms = self.cg._typed_method(subst[1], fn.attr)
+                return self._returns_bounds(ms, depth, recv_cls=subst[1])
+            return TOP
+        ts, kind = self.cg.resolve_call(call, f)
+        if not ts or kind in ("external", "unknown", "lambda"):
+            return TOP
+        if kind == "ctor":
+            return TOP
+        recv_cls = None
+        if isinstance(call.func, ast.Attribute):
+            t = self.cg.type_of(call.func.value, f)
+            if isinstance(t, Cls):
+                recv_cls = t
+        return self._returns_bounds(ts, depth, recv_cls)
+
+    def _returns_bounds(self, funcs, depth, recv_cls=None):
+        if not funcs:
+            return TOP
+        out = None
+        for m in funcs:
+            key = (id(m.node), id(recv_cls) if recv_cls else 0)
+            if key in self._ret:
+                r = self._ret[key]
+            else:
+                self._ret[key] = TOP
+                r = self._func_return_bounds(m, depth, recv_cls)
+                self._ret[key] = r
+            out = r if out is None else iv_join(out, r)
+        return out if out is not None else TOP
+
+    def _func_return_bounds(self, m: Func, depth, recv_cls):
+        rets = [n for n in own_nodes(m.node) if isinstance(n, ast.Return)]
+        if not rets or any(r.value is None for r in rets):
+            return TOP
+        # falling off the end returns None -> not an int; only accept bodies that end in return/raise
+        last = m.node.body[-1]
+        from .cfg import leaves_only
+        if not leaves_only(m.node.body):
+            return TOP
+        sn = self.cg.self_name(m)
+        out = None
+        for r in rets:
+            cls = recv_cls if (recv_cls is not None and sn is not None) else None
+            if cls is None and sn is not None:
+                cls = self.cg.type_of(ast.Name(id=sn, ctx=ast.Load()), m)
+            b = self.eval(r.value, m, depth + 1, None)
+            if b == TOP and sn is not None and isinstance(cls, Cls):
+                b = self.eval(r.value, m, depth + 1, (sn, cls))
+            out = b if out is None else iv_join(out, b)
+        return out
+
+    def _attr_bounds_expr(self, e: ast.Attribute, f, depth, subst):
+        if subst is not None:
+            if isinstance(e.value, ast.Name) and e.value.id == subst[0]:
+                return self.attr_bounds(subst[1], e.attr, depth)
+            return TOP
+        t = self.cg.type_of(e.value, f)
+        if isinstance(t, Cls):
+            return self.attr_bounds(t, e.attr, depth)
+        return TOP
+
+    def attr_bounds(self, cls: Cls, attr, depth=0):
+        """bounds of `obj.attr` for a fully constructed obj of class cls: a property is evaluated
+        through its return expressions; a data attribute through all stores to it, refined by the
+        raise-guards at the top level of __init__ that follow the last store."""
+        key = (id(cls), attr, "bounds")
+        if key in self._attr:
+            return self._attr[key]
+        self._attr[key] = TOP
+        r = self._attr_bounds(cls, attr, depth)
+        self._attr[key] = r
+        return r
+
+    def _attr_bounds(self, cls, attr, depth):
+        pm = cls.lookup(attr)
+        if pm is not None and is_property(pm.node):
+            return self._returns_bounds(self.cg._typed_method(cls, attr), depth, recv_cls=cls)
+        stores = self._stores(cls, attr)
+        if not stores:
+            ca = cls.lookup_attr(attr)
+            if ca is not None:
+                v = self.folder.fold(ca, cls.module)
+                if isinstance(v, int):
+                    return iv(int(v))
+            return TOP
+        out = None
+        init_only = True
+        for m, stmt, tgt, val, slot in stores:
+            if m.name != "__init__":
+                init_only = False
+            if val is None:
+                b = TOP
+            elif slot is not None:
+                b = TOP
+                if isinstance(val, ast.Call) and CallGraph._is_unpack_call(val):
+                    fmt = self.unpack_fmt(val, m)
+                    if fmt is not None:
+                        sl = fmt_slots(fmt)
+                        ntg = len([t for t in stmt.targets[0].elts]) if isinstance(stmt, ast.Assign) else 0
+                        if len(sl) == ntg and sl[slot] is not None:
+                            b = sl[slot]
+            else:
+                b = self.eval(val, m, depth + 1)
+            out = b if out is None else iv_join(out, b)
+        if out is None:
+            out = TOP
+        if init_only:
+            out = self._refine_by_guards(cls, attr, stores, out, depth)
+        return out
+
+    def _refine_by_guards(self, cls, attr, stores, b, depth):
+        init = cls.lookup("__init__")
+        if init is None or any(m is not init for m, *_ in stores):
+            return b
+        sn = self.cg.self_name(init)
+        body = init.node.body
+        last_store = -1
+        for i, s in enumerate(body):
+            for m, stmt, tgt, val, slot in stores:
+                if any(x is stmt for x in [s] + list(own_nodes(s))):
+                    last_store = max(last_store, i)
+        lo, hi = b
+        from .cfg import raises_only
+        for s in body[last_store + 1:]:
+            if isinstance(s, ast.If) and raises_only(s.body) and not s.orelse:
+                conds = s.test.values if isinstance(s.test, ast.BoolOp) and isinstance(s.test.op, ast.Or) else [s.test]
+                for c in conds:
+                    if isinstance(c, ast.Compare) and len(c.ops) == 1:
+                        l, r = c.left, c.comparators[0]
+                        op = c.ops[0]
+                        is_attr = lambda x: isinstance(x, ast.Attribute) and x.attr == attr and isinstance(x.value, ast.Name) and x.value.id == sn
+                        if is_attr(r) and not is_attr(l):
+                            l, r = r, l
+                            op = {ast.Lt: ast.Gt, ast.LtE: ast.GtE, ast.Gt: ast.Lt, ast.GtE: ast.LtE}.get(type(op), type(op))()
+                        if not is_attr(l):
+                            continue
+                        # the other side: a constant, or another attribute with known bounds *at this point*
+                        ob = self.eval(r, init, depth + 1)
+                        if ob == TOP and isinstance(r, ast.Attribute) and isinstance(r.value, ast.Name) and r.value.id == sn and r.attr != attr:
+                            ob = self.attr_bounds(cls, r.attr, depth + 1)
+                        # guard raises when cond true -> on the normal path the negation holds
+                        if isinstance(op, ast.Lt) and ob[0] != -INF:       # not (a < E)  => a >= E >= E.lo
+                            lo = max(lo, ob[0])
+                        elif isinstance(op, ast.LtE) and ob[0] != -INF:    # a > E
+                            lo = max(lo, ob[0] + 1)
+                        elif isinstance(op, ast.Gt) and ob[1] != INF:      # a <= E
+                            hi = min(hi, ob[1])
+                        elif isinstance(op, ast.GtE) and ob[1] != INF:
+                            hi = min(hi, ob[1] - 1)
+            # any later store would have been counted in last_store
+        return (lo, hi)
